@@ -25,6 +25,7 @@ type c18Spec struct {
 	Format string `json:"format"` // yml | txt
 	Group  string `json:"group"`  // base | stage:<i> | part:<i> | invalid
 	Values int    `json:"values"` // values per parameter
+	Env    int    `json:"env,omitempty"` // configuration the pair of runs shares: 0 defaults; 1 CO2 method 3 at 550 ppm with stomata influence; 2 CO2 method 1 at 700 ppm, Turc-Wendling ET; 3 small soil root depth, Haude ET, other N-mineralisation method
 }
 
 var c18StageParams = []string{"TSUM", "BAS", "VSCHWELL", "DAYL", "DLBAS", "DRYSWELL", "LUKRIT", "LAIFKT", "WGMAX", "KC"}
@@ -51,8 +52,15 @@ func c18Specs(tier string, seed int) []c18Spec {
 		_ = i
 		for _, fm := range formats {
 			out = append(out, c18Spec{File: f, Format: fm, Group: "base", Values: vals}, c18Spec{File: f, Format: fm, Group: "invalid", Values: vals})
+			// the base parameters under every configuration variant; stage and organ parameters under a rotating one
+			for env := 1; env <= 3; env++ {
+				if tier == "thorough" || fm == "txt" || env == 1+i%3 {
+					out = append(out, c18Spec{File: f, Format: fm, Group: "base", Values: vals, Env: env})
+				}
+			}
 			for s := 1; s <= 10; s++ {
-				out = append(out, c18Spec{File: f, Format: fm, Group: fmt.Sprintf("stage:%d", s), Values: vals}, c18Spec{File: f, Format: fm, Group: fmt.Sprintf("part:%d", s), Values: vals})
+				env := (i + s) % 4
+				out = append(out, c18Spec{File: f, Format: fm, Group: fmt.Sprintf("stage:%d", s), Values: vals, Env: env}, c18Spec{File: f, Format: fm, Group: fmt.Sprintf("part:%d", s), Values: vals, Env: (env + 1) % 4})
 			}
 		}
 	}
@@ -297,6 +305,20 @@ func c18Run(raw json.RawMessage, c *mc.Ctx) {
 	root := scratchRoot()
 	defer os.RemoveAll(root)
 	p, cropFile, _ := c18Project(sp.File, yml)
+	switch sp.Env {
+	case 1:
+		p.Config["CO2method"], p.Config["CO2concentration"], p.Config["CO2StomataInfluence"] = "3", "550", "1"
+	case 2:
+		p.Config["CO2method"], p.Config["CO2concentration"], p.Config["ETpot"] = "1", "700", "2"
+	case 3:
+		p.Soil.RootDepth = 4
+		p.Config["ETpot"] = "1"
+		p.VerdColumn = true
+		for i := range p.Weather {
+			p.Weather[i].Verd = satDeficit(p.Weather[i])
+		}
+		p.Config["PotMineralisation"] = "1"
+	}
 	p.Write(root)
 	// edited parameter folder: links to every shipped table, the crop file under test is a private copy
 	edit := filepath.Join(root, "param_edit")
